@@ -189,6 +189,55 @@ def gen_cond(ctx, kind, k, n, d, fkind, skind, tf=None, zero_offset=False):
     return Cond(jnp.asarray(A), noise, to_latent=jnp.asarray(tl), to_observed=jnp.asarray(to))
 
 
+def deterministic_coordinate_case(ctx, kind):
+    """An output coordinate that is exactly deterministic and is NOT the last one: the Gaussian knows input coordinate 0
+    exactly (zero row and column of its factor), output 0 copies it without noise (row 0 of A is a multiple of e_0, row 0
+    of the noise factor is zero), all other coordinates are random.  Triangularisation then meets a zero pivot in the first
+    column with non-zero entries to its right (seeded change C08-s7: a sign normalisation with sign(0) = 0 wipes that row)."""
+    import jax.numpy as jnp
+
+    rng = ctx.rng
+    Cond, Normal = make_impl(kind)
+    n, k, d = 4, 3, 2
+
+    def factor(m):
+        L = np.tril(gen.dyadic(rng, (m, m), bits=4)) + np.diag(rng.integers(1, 4, size=m).astype(float))
+        L[0, :] = 0.0
+        L[:, 0] = 0.0
+        return L
+
+    def linop():
+        A = gen.dyadic(rng, (k, n), bits=4, scale=2.0)
+        A[0, :] = 0.0
+        A[0, 0] = 1.5
+        return A
+
+    if kind == "dense":
+        # coordinate 0 of every dimension block: build per dimension, then interleave through a Kronecker structure
+        Lr = np.kron(factor(n), np.eye(d))
+        A = np.kron(linop(), np.eye(d))
+        Lq = np.kron(factor(k), np.eye(d))
+        m, b = gen.dyadic(rng, (n * d,), bits=6, scale=4.0), gen.dyadic(rng, (k * d,), bits=6, scale=2.0)
+        tl, to = gen.scalings(rng, n * d, "mild"), gen.scalings(rng, k * d, "mild")
+    elif kind == "iso":
+        Lr, A, Lq = factor(n), linop(), factor(k)
+        m, b = gen.dyadic(rng, (n, d), bits=6, scale=4.0), gen.dyadic(rng, (k, d), bits=6, scale=2.0)
+        tl, to = gen.scalings(rng, n, "mild"), gen.scalings(rng, k, "mild")
+    else:
+        Lr, A, Lq = np.stack([factor(n) for _ in range(d)]), np.stack([linop() for _ in range(d)]), np.stack([factor(k) for _ in range(d)])
+        m, b = gen.dyadic(rng, (d, n), bits=6, scale=4.0), gen.dyadic(rng, (d, k), bits=6, scale=2.0)
+        tl, to = np.stack([gen.scalings(rng, n, "mild") for _ in range(d)]), np.stack([gen.scalings(rng, k, "mild") for _ in range(d)])
+    rv = Normal(jnp.asarray(m), jnp.asarray(Lr), None)
+    c = Cond(jnp.asarray(A), Normal(jnp.asarray(b), jnp.asarray(Lq), None), to_latent=jnp.asarray(tl), to_observed=jnp.asarray(to))
+    tag = {"n": n, "d": d, "k": k, "structure": "deterministic first output coordinate", "it": "corpus"}
+    ctx.count("structure=deterministic-coordinate")
+    check_marg(ctx, kind, c, rv, tag)
+    c2 = gen_cond(ctx, kind, 2, k, d, "rankdef", "mild")
+    check_merge(ctx, kind, c2, c, tag)
+    check_revert(ctx, kind, c, rv, 1, tag)
+    ctx.case(dict(tag, kind=kind), nontrivial=True)
+
+
 # ------------------------------------------------------------------------------------------------
 # one check per operation
 
@@ -588,6 +637,8 @@ def run(ctx):
     corpus(ctx)
     ncases = ctx.n(60, 900)
     kinds = ["dense", "iso", "bd"]
+    for kind in kinds:
+        deterministic_coordinate_case(ctx, kind)
     for it in range(ncases):
         kind = kinds[it % 3]
         rng = ctx.rng
